@@ -218,6 +218,7 @@ Lemma reset_differs_only_in : forall e,
      (e_remove_text_blanks f) (e_output_type f) (e_xml_gen_type f) (e_indent_delta f) (e_indent e) (e_in_content f)
      (e_in_cdata f) (e_cdata f) None (e_strstbl_len f) (e_use_strtbl f) (e_xml_encode_header f)
      (e_produce_anonymous f) (e_wbxml_version f) (e_output_charset f) (e_flow_mode f) (e_pre_last_node_len f)
+     (e_pre_last_tagCodePage f) (e_pre_last_attrCodePage f) (e_pre_last_indent f) (e_pre_last_in_content f) (e_pre_last_tag f)
      (e_textual_publicid f)).
 Proof. destruct e; reflexivity. Qed.
 
@@ -318,7 +319,7 @@ End EncoderProofs.
 
 (* a body that shows what it was given: it reports the language and whether a string table would be written *)
 Definition wit_body (e : encoder) (t : N * N) : erun * eres (list N) :=
-  (mkER (e_tree e) (Some []) None None 0 0 0 0 0 (e_indent e + 1) false false None (e_strstbl e) 0 0,
+  (mkER (e_tree e) (Some []) None None 0 0 0 0 0 (e_indent e + 1) false false None (e_strstbl e) 0 0 0 0 0 false None,
    EOk [match e_lang e with Some l => l | None => 0 end; if e_use_strtbl e then 1 else 0; e_indent e; e_output_charset e]).
 Definition wit_lang (t : N * N) : option N := Some (fst t).
 Definition wit_exec := e_exec (N * N) (list N) (fun _ => 7) wit_lang snd wit_body.
